@@ -99,7 +99,9 @@ let event (toks : string list) : M.event =
   | ["deliver"; h] -> M.EDeliver (bytes_of h)
   | ["eof"] -> M.EEof
   | ["rerr"] -> M.ERerr
+  | ["rintr"] -> M.ERerr                 (* a read failing with ErrorKind::Interrupted: to the client any read error ends the stream *)
   | ["werr"; n] -> M.EWerr (num n)
+  | ["werr0"; n] -> M.EWerr (num n)      (* the write half reporting Ok(0): write_all turns it into an error (WriteZero) *)
   | "wmode" :: _ -> M.ENop
   | "start" :: i :: h :: kind :: r ->
     let k = match kind with
